@@ -1,5 +1,6 @@
-// GENERATED on every run by vlib/extract.py from /tmp/refcheck-18294 -- do not edit
+// GENERATED on every run by vlib/extract.py from /tmp/clean0 -- do not edit
 #![allow(unused_imports, unused_variables, unused_mut, dead_code, unused_parens, unused_braces, non_snake_case)]
+#![feature(allocator_api)]
 use vstd::prelude::*;
 use core::cmp::Ordering;
 verus! {
@@ -703,6 +704,37 @@ pub proof fn package_types_table()
         }
     }
 }
+// ---- unit theory.formatter  <= (contracts):0 ----
+// ---- R9: stub of fmt::Formatter (ghost output) and of the escape sets; the canonical shape written from C03 ----
+#[verifier::external_body]
+pub struct Formatter { _p: core::marker::PhantomData<u8> }
+impl Formatter { pub uninterp spec fn out(&self) -> Seq<char>; }
+pub struct FmtError;
+pub type FmtResult = Result<(), FmtError>;
+
+#[verifier::external_body]
+pub fn x_write_str(f: &mut Formatter, s: &str) -> (r: FmtResult)
+    ensures r is Ok ==> final(f).out() == old(f).out() + s@
+{ unimplemented!() }
+
+// ---- unit U-ptname.into_str  <= purl/src/package_type.rs:180 ----
+pub fn package_type_into_str(value: PackageType) -> (r: &'static str)
+    ensures r@ == type_name(value)
+{
+        value.name()
+    }
+// ---- unit U-ptname.as_ref  <= purl/src/package_type.rs:186 ----
+pub fn package_type_as_ref(this: &PackageType) -> (r: &str)
+    ensures r@ == type_name(*this)
+{
+        this.name()
+    }
+// ---- unit U-ptname.display  <= purl/src/package_type.rs:192 ----
+pub fn package_type_fmt(this: &PackageType, f: &mut Formatter) -> (r: FmtResult)
+    ensures r is Ok ==> final(f).out() == old(f).out() + type_name(*this)
+{
+        x_write_str(f, this.name())
+    }
 // ---- unit T.UnsupportedPackageType  <= purl/src/package_type.rs:200 ----
 pub struct UnsupportedPackageType;
 // ---- unit U-ptname.from_str  <= purl/src/package_type.rs:205 ----
